@@ -3,6 +3,7 @@
 // then perform codec operations concurrently on real goroutines. A race report is a definite finding;
 // silence is supporting evidence only (a dynamic detector on finitely many runs).
 //
+//	vrace pair <a> <b>  runs operations a and b on two goroutines (every unordered pair is run by the driver)
 //	vrace <round>      prints "ok <ops>" or lets the race detector report on stderr (exit 66)
 package main
 
@@ -41,6 +42,30 @@ func main() {
 		codecops.In = in
 	} else {
 		codecops.In = codecops.BuildInputs()
+	}
+	if len(os.Args) > 3 && os.Args[1] == "pair" {
+		// systematic part: the two named operations, one goroutine each, three times
+		var wg sync.WaitGroup
+		start := make(chan struct{})
+		for _, name := range os.Args[2:4] {
+			op, ok := codecops.Ops[name]
+			if !ok {
+				fmt.Fprintln(os.Stderr, "vrace: unknown operation", name)
+				os.Exit(2)
+			}
+			wg.Add(1)
+			go func() {
+				defer wg.Done()
+				<-start
+				for j := 0; j < 3; j++ {
+					_ = op()
+				}
+			}()
+		}
+		close(start)
+		wg.Wait()
+		fmt.Println("ok pair", os.Args[2], os.Args[3])
+		return
 	}
 	k := 2 + round%3
 	var wg sync.WaitGroup
